@@ -45,7 +45,13 @@ ASSUMPTIONS = ['claim is PARTIAL: the heap model abstracts CPython object semant
                'immutable values are opaque scalars); numpy / copy.deepcopy are modelled, not verified',
                'a span list handed to two constructors, and models handed to a linker, are shared by the CALLER (stored by reference); '
                'independence is claimed for arguments nobody else holds',
-               'a VectorContainer nested inside another container\'s attribute (other than a linker\'s submodels) is outside the model']
+               'a VectorContainer nested inside another container\'s attribute (other than a linker\'s submodels) is outside the model',
+               'reindex() lineages are outside the claim (C12, finding #21: object-dtype cells are copied by reference); the model '
+               'mirrors that sharing and K compares it',
+               'equality at copy time = equality of the observable state (orphan `_name` arrays that no accessor reaches, left by '
+               '__init__ of a class whose NAMES list was extended after the original was created, are not compared); aliasing BETWEEN '
+               'components that the copy separates (Trace.names is model.names, C17) is not a C11 failure, aliasing it ADDS is',
+               'traced models only get float variables (NumPy coerces the mixed column of a trace; not modelled)']
 EXHAUSTIVE = {'quick': False, 'thorough': False}
 CASE_TIMEOUT = 30
 DEPTH = 8
@@ -1354,6 +1360,8 @@ def gen_op(rng, s, fresh_float, alias, tracer):
     if s.kind == 'container' and not fv:
         q = 0.35     # first add a variable
     if q < 0.14 and fv:
+        if rng.random() < 0.06:      # malformed: position outside the span (IndexError, nothing may change)
+            return ['setitem', rng.choice(names_for_access), n + rng.randrange(2), lib.fhex(fresh_float()), 'attr']
         return ['setitem', rng.choice(names_for_access), rng.randrange(n), lib.fhex(fresh_float()), rng.choice(['attr', 'label'])]
     if q < 0.24 and fv:
         return ['setseq', rng.choice(names_for_access), [lib.fhex(fresh_float()) for _ in range(n if rng.random() < 0.9 else n + 1)], rng.choice(['attr', 'item', 'replace'])]
@@ -1397,6 +1405,8 @@ def gen_op(rng, s, fresh_float, alias, tracer):
             return ['lappend', attr, 'marker']
         if q < 0.76:
             attr = rng.choice(['check', 'endogenous'])
+            if rng.random() < 0.35:  # item assignment in the list (IndexError when the list is shorter)
+                return ['lsetitem', rng.choice(['check', 'endogenous', 'names']), rng.choice([0, 0, 1, 5]), rng.choice(fv)]
             return ['lreplace', attr, [rng.choice(fv)] if rng.random() < 0.7 else []]
         if q < 0.80 and alias:
             return ['dictset', 'aliases', rng.choice(['GDP', 'NEWAL']), rng.choice(fv)]
